@@ -299,3 +299,67 @@ func c16SpecialCases() []c16SpecialCase {
 		{Slurpfile: true, Args: []string{"x"}},
 	}
 }
+
+// c16.procfs: files whose reported size says nothing about their content (procfs reports 0): -Rs is the whole text,
+// -R its lines, --rawfile the same text, also between other files and as a redirected standard input.
+
+type c16ProcCase struct{ Mode string }
+
+var kC16Proc = run.NewKind("c16.procfs", func(c *run.Ctx, t c16ProcCase) *run.Fail {
+	const pf = "/proc/version"
+	content, err := os.ReadFile(pf)
+	if err != nil || len(content) == 0 {
+		c.Inconclusive("no-procfs")
+		return nil
+	}
+	e, err := c16NewEnv(c)
+	if err != nil || e.write("a.txt", "first\nline") != nil || e.write("z.txt", "last\n") != nil {
+		c.Inconclusive("no-temp-dir")
+		return nil
+	}
+	defer e.close()
+	text := string(content)
+	lines := func(s string) []any {
+		var out []any
+		for rest := s; rest != ""; {
+			l, tail, _ := strings.Cut(rest, "\n")
+			out, rest = append(out, l), tail
+		}
+		return out
+	}
+	var opt run.CLIOpt
+	var want []any
+	switch t.Mode {
+	case "Rs":
+		opt, want = run.CLIOpt{Args: []string{"-Rs", ".", pf}, NoStdin: true}, []any{text}
+	case "Rs-between":
+		opt, want = run.CLIOpt{Args: []string{"-Rs", ".", "a.txt", pf, "z.txt"}, NoStdin: true}, []any{"first\nline" + text + "last\n"}
+	case "Rs-stdin":
+		opt, want = run.CLIOpt{Args: []string{"-Rs", "."}, StdinFile: pf}, []any{text}
+	case "nRs-input":
+		opt, want = run.CLIOpt{Args: []string{"-nRs", "[inputs]", pf, "z.txt"}, NoStdin: true}, []any{[]any{text + "last\n"}}
+	case "R":
+		opt, want = run.CLIOpt{Args: []string{"-R", ".", pf}, NoStdin: true}, lines(text)
+	case "R-between":
+		opt, want = run.CLIOpt{Args: []string{"-nR", "[inputs]", "a.txt", pf, "z.txt"}, NoStdin: true}, []any{append(append([]any{"first", "line"}, lines(text)...), "last")}
+	case "rawfile":
+		opt, want = run.CLIOpt{Args: []string{"-n", "--rawfile", "x", pf, "$x"}, NoStdin: true}, []any{text}
+	case "Rs-length":
+		opt, want = run.CLIOpt{Args: []string{"-Rs", "utf8bytelength", "z.txt", pf, "a.txt"}, NoStdin: true}, []any{len(content) + 15}
+	default:
+		return run.Failf("unknown mode")
+	}
+	opt.Dir = e.dir
+	e.n++
+	c.Count("process_runs", 1)
+	r := run.CLI(opt)
+	if c16Broken(c, r) {
+		return nil
+	}
+	got, malformed := c15Decode(r.Stdout)
+	if r.Code != 0 || malformed || run.Canon(got) != run.Canon(want) {
+		return run.Failf("gojq %q (%s reports size 0 and holds %d bytes): exit %d, stdout %s, stderr %s; expected %s", opt.Args, pf, len(content), r.Code, run.Clip(string(r.Stdout)), run.Clip(string(r.Stderr)), run.Clip(run.Canon(want)))
+	}
+	c.Nontrivial(t.Mode)
+	return nil
+})
